@@ -230,7 +230,33 @@ def scenarios(jitters):
         for kind in ALIVE_KINDS:
             for step in ("on_req", "pre_reply", "mid_reply", "post_reply"):
                 add("big", step, kind, 2, jitter=j, prog="B")
+        # reply-size dimension: WELL-FORMED replies (error text / string result) of boundary sizes.  The VM keeps
+        # 255 bytes of an error text (error_msg[256]) and must stay framed whatever the announced length is.
+        for n in REPLY_SIZES:
+            for k in (1, 2):
+                add("sized", "sized_error", "n=%d" % n, k, jitter=j, prog="A")
+                add("sized", "sized_error", "n=%d" % n, k, jitter=j, prog="B")
+                add("sized", "sized_result", "n=%d" % n, k, jitter=j, prog="B")
     return S
+
+
+REPLY_SIZES = [0, 1, 255, 256, 257, 511, 512, 767, 768, 769, 4095, 4096, 8191, 8192, 9000, 65535, 65536, 100000, 1 << 20]
+
+
+def sized(sc):
+    """(mode, nbytes) of a reply-size scenario, else None."""
+    if sc["step"].startswith("sized_"):
+        return sc["step"][6:], int(sc["kind"][2:])
+    return None
+
+
+def expected_output(sc):
+    prog = PROGS[sc["prog"]]
+    sz = sized(sc)
+    if sz and sz[0] == "result":
+        k = sc["k"]
+        return prog.expected.replace("C16B-A%d-len=%d\n" % (k, BIG[k - 1]), "C16B-A%d-len=%d\n" % (k, sz[1]))
+    return prog.expected
 
 
 def faulted_call(sc):
@@ -341,8 +367,10 @@ def run_case(flavor, bindir, casedir, sc, tag, tables, wall=40):
             pass
     env = {"PATH": "%s:/usr/bin:/bin" % bindir, "HOME": casedir, "LC_ALL": "C",
            "NLVERIF_COP_TAG": tag, "NLVERIF_COP_LOG": logp, "NLVERIF_COP_TABLE": tables[prog.name],
-           "NLVERIF_COP_FAULT": "none" if sc["step"] == "none" else cell(sc),
+           "NLVERIF_COP_FAULT": "none" if sc["step"] == "none" or sized(sc) else cell(sc),
            "NLVERIF_COP_SECOND": sc["second"]}
+    if sized(sc):
+        env["NLVERIF_COP_SIZED"] = "%s:%d:%d" % (sized(sc)[0], sized(sc)[1], sc["k"])
     if sc["stubborn"]:
         env["NLVERIF_COP_STUBBORN"] = "1"
     if sc["chunk"]:
@@ -457,7 +485,9 @@ def classify(ob):
         return "signal:" + name, "signal:" + name, "nano_vm terminated by %s" % name
     faulted = sc["step"] != "none"
     if ob["rc"] == 0:
-        if ob["out"] == prog.expected:
+        if ob["out"] == expected_output(sc):
+            if sized(sc) and sized(sc)[0] == "result" and ob["fired"]:
+                return "delivered", None, ""
             if not faulted or not ob["fired"]:
                 return "ok", None, ""
             if sc["kind"] == "close_stdin_alive" and ob["instances"] <= 1:
@@ -598,7 +628,7 @@ def run(ctx):
                     relaunch_runs += 1
                     relaunch_instances += ob["instances"] - 1
             files = {"prog.nano": prog.source, "prog.nvm": nvm_bytes[prog.name], "table.json": json.dumps(prog.table),
-                     "expected_stdout.txt": prog.expected,
+                     "expected_stdout.txt": expected_output(s),
                      "stdout.txt": ob["out"], "stderr.txt": ob["err"], "cop.log": ob["log"],
                      "cmd.txt": "# in this directory; nano_vm of the %s flavor (python3 -m nlv.build %s prints its root)\n"
                                 "mkdir -p bin && ln -sf %s bin/nano_cop\nenv -i %s PATH=$PWD/bin:/usr/bin:/bin nano_vm --isolate-ffi prog.nvm\n" % (
